@@ -65,7 +65,15 @@ def make_variant(rng_state, kind, axi, exc, harmonic=0.0, refine=1.0):
     boxes = [(x0 + 1.0, 1.0, x0 + 2.0, 2.5), (x0 + 3.5, 1.5, x0 + 5.0, 3.0)]
     for bi, (bx0, by0, bx1, by1) in enumerate(boxes):
         c = (c1, c2)[bi]
-        if kind == "fem":
+        if kind == "fem" and bi == 1 and exc.get("series_bars", True):
+            # terminal 2 is a series circuit of two solid bars (go and return): its blocks keep their own voltage
+            # gradients in a time-harmonic problem whether or not the circuit carries current
+            m3 = B.prop("blockprops", name="m3", mu_x=1.0, mu_y=1.0, sigma=8.0)
+            w = (bx1 - bx0) * 0.4
+            for (ax0, ax1, tn) in ((bx0, bx0 + w, 1), (bx1 - w, bx1, -1)):
+                B.rect(ax0, by0, ax1, by1)
+                B.label((ax0 + ax1) / 2, (by0 + by1) / 2, m3, maxarea=d / 2, circuit=c, turns=tn)
+        elif kind == "fem":
             B.rect(bx0, by0, bx1, by1)
             B.label((bx0 + bx1) / 2, (by0 + by1) / 2, m2, maxarea=d / 2, circuit=c, turns=1)
         else:
@@ -78,10 +86,25 @@ def make_variant(rng_state, kind, axi, exc, harmonic=0.0, refine=1.0):
     return p
 
 
+def vanishing_frequency(p):
+    """a frequency far below the problem's own time scale: omega * sigma * mu * L^2 = 1e-6 with the largest conductivity and
+    permeability anywhere and the full extent of the drawing (measured deviation from the static field at this frequency:
+    at most 2e-7 relative).  Far below that (e.g. 1e-9 Hz for a drawing
+    in micrometres, 1e-11 Hz in centimetres) the unknowns of solid conductors in circuits grow like 1/f and the attainable
+    accuracy of the iterative solver in binary64 degrades in proportion (independent of Precision) -- rounding, which no
+    theorem here covers; observed and recorded in DESIGN.md."""
+    import math
+    L = 7.0 * femgen.UNIT_M[p["units"]]
+    sig = max([b.get("sigma", 0.0) for b in p["blockprops"]] + [1e-3]) * 1e6
+    mu = max([max(b.get("mu_x", 1.0), b.get("mu_y", 1.0)) for b in p["blockprops"]] + [1.0]) * 4e-7 * math.pi
+    return 1e-6 / (2 * math.pi * sig * mu * L * L)
+
+
 def solve(ctx, tag, p):
     wd = os.path.join(ctx.work, tag)
     os.makedirs(wd, exist_ok=True)
-    r, err = femmrun.run(ctx, p, [("nodes",), ("cond", "c1"), ("cond", "c2")], "prob", workdir=wd)
+    cq = "condc" if p["kind"] == "fem" and p.get("frequency", 0) else "cond"
+    r, err = femmrun.run(ctx, p, [("nodes",), (cq, "c1"), (cq, "c2")], "prob", workdir=wd)
     if err:
         return None, err
     nodes, elems = femmrun.read_solution(p["kind"], os.path.join(wd, "prob"))
@@ -101,8 +124,10 @@ def reciprocal_when_converged(ctx, k, st, kind, axi, freq, scale, idx):
         out.append(sol[0])
     r1, r2 = out
     if kind == "fem" and freq:
-        m21 = complex(r1["q2"][4], r1["q2"][5]) if len(r1["q2"]) >= 6 else r1["q2"][idx]
-        m12 = complex(r2["q1"][4], r2["q1"][5]) if len(r2["q1"]) >= 6 else r2["q1"][idx]
+        # time-harmonic: mutual IMPEDANCE (voltage across the idle terminal per unit current in the other); with solid
+        # conductors the flux linkage reported for a terminal is weighted with its own eddy currents and is not reciprocal
+        m21 = complex(r1["q2"][2], r1["q2"][3]) if len(r1["q2"]) >= 6 else r1["q2"][idx]
+        m12 = complex(r2["q1"][2], r2["q1"][3]) if len(r2["q1"]) >= 6 else r2["q1"][idx]
     else:
         m21, m12 = r1["q2"][idx], r2["q1"][idx]
     ok = abs(m21 - m12) <= 2e-6 * max(abs(m21), abs(m12), 1e-300)
@@ -132,6 +157,12 @@ def correspond(ctx):
             scale["Vl"] = 1e-3
         S1 = {n: scale[n] * rng.choice([1.0, 0.5, -2.0, 0.0]) for n in names}
         S2 = {n: scale[n] * rng.choice([1.0, -0.25, 3.0, 0.0]) for n in names}
+        if kind == "fem" and freq:
+            S1["V2"] = 0.0                       # an idle series circuit next to an excited one ...
+            if S2["V2"] == 0.0:
+                S2["V2"] = scale["V2"]           # ... that carries current in the other run
+            if S1["V1"] == 0.0:
+                S1["V1"] = scale["V1"]
         a, b = rng.choice([2.0, -1.5, 0.5]), rng.choice([1.0, 3.0, -0.75])
         S3 = {n: a * S1[n] + b * S2[n] for n in names}
         for ft in [kind, "axi" if axi else "planar"] + (["harmonic"] if freq else []):
@@ -166,8 +197,9 @@ def correspond(ctx):
         r1, r2 = sols["e1"][0], sols["e2"][0]
         idx = 2 if kind == "fem" else 1          # flux linkage / charge (heat flow)
         if kind == "fem" and freq:
-            m21 = complex(r1["q2"][4], r1["q2"][5]) if len(r1["q2"]) >= 6 else r1["q2"][idx]
-            m12 = complex(r2["q1"][4], r2["q1"][5]) if len(r2["q1"]) >= 6 else r2["q1"][idx]
+            # mutual impedance (see reciprocal_when_converged)
+            m21 = complex(r1["q2"][2], r1["q2"][3]) if len(r1["q2"]) >= 6 else r1["q2"][idx]
+            m12 = complex(r2["q1"][2], r2["q1"][3]) if len(r2["q1"]) >= 6 else r2["q1"][idx]
         else:
             m21, m12 = r1["q2"][idx], r2["q1"][idx]
         sc = max(abs(m21), abs(m12), 1e-300)
@@ -212,7 +244,8 @@ def correspond(ctx):
             one = dict(lam, lamfill=fill, d_lam=rng.choice([0.2, 0.35, 0.5]))
             S["lam"] = {m: one for m in (("m1", "m2") if which == "both" else (which,))}
         s0, e0 = solve(ctx, "h%d_static" % hk, make_variant(st, "fem", axi, S, 0.0))
-        s1, e1 = solve(ctx, "h%d_lowfreq" % hk, make_variant(st, "fem", axi, S, 1e-9))
+        flow = vanishing_frequency(make_variant(st, "fem", axi, S, 1.0))
+        s1, e1 = solve(ctx, "h%d_lowfreq" % hk, make_variant(st, "fem", axi, S, flow))
         feats["omega0-" + ("axi-" if axi else "planar-") + lname] = feats.get("omega0-" + ("axi-" if axi else "planar-") + lname, 0) + 1
         if e0 or e1:
             ctx.fail("run failed: %s" % (e0 or e1), axi=axi, lamination=S.get("lam"))
@@ -222,6 +255,19 @@ def correspond(ctx):
         a1 = [complex(n[2], n[3]) if len(n) > 3 else n[2] for n in s1[1]]
         vm = max(abs(x) for x in a0) or 1e-300
         w = max(abs(x - y) for x, y in zip(a0, a1))
+        if w > 3e-6 * vm:
+            # the solvers stop at a relative residual of Precision: a deviation counts only if it survives Precision 1e-12
+            pa, pb = make_variant(st, "fem", axi, S, 0.0), make_variant(st, "fem", axi, S, flow)
+            pa["precision"] = pb["precision"] = 1e-12
+            t0, f0 = solve(ctx, "h%d_static_p" % hk, pa)
+            t1, f1 = solve(ctx, "h%d_lowfreq_p" % hk, pb)
+            if not (f0 or f1):
+                a0 = [n[2] for n in t0[1]]
+                a1 = [complex(n[2], n[3]) if len(n) > 3 else n[2] for n in t1[1]]
+                vm = max(abs(x) for x in a0) or 1e-300
+                w = max(abs(x - y) for x, y in zip(a0, a1))
+                if w <= 3e-6 * vm:
+                    ctx.res.cov["omega0_deviations_gone_with_precision_1e-12"] = ctx.res.cov.get("omega0_deviations_gone_with_precision_1e-12", 0) + 1
         if w > 3e-6 * vm:
             ctx.fail("time-harmonic solve at vanishing frequency differs from the static one by %.3g (scale %.3g; %s, %s)"
                      % (w, vm, "axisymmetric" if axi else "planar", lname), axi=axi, lamination=S.get("lam"), S={k: v for k, v in S.items() if k != "lam"}, seed_state=st)
